@@ -3,7 +3,7 @@
    reference tables Ref.* are frozen.  The domains are finite (the tables), so each statement is
    decided by vm_compute on a boolean check and lifted by the lemmas of Proofs/AbiTablesP.v. *)
 From Coq Require Import List String ZArith NArith Bool.
-Require Import V.Ref.RefLayout V.Ref.RefConsts V.Spec.AbiTables V.Proofs.AbiTablesP.
+Require Import V.Ref.RefLayout V.Ref.RefConsts V.Spec.AbiTables V.Proofs.AbiTablesP V.Model.ErrFmt.
 Require Import V.Gen.AbiConsts V.Gen.ToStr V.Gen.CStructs.
 Import ListNotations.
 Open Scope string_scope.
@@ -26,13 +26,25 @@ Theorem C19_to_str : forall f, In f symbolic_fns ->
   forall v s, to_str_sem abi_consts arms v = Some s -> const_val abi_consts s = Some v.
 Proof. apply to_str_ok_spec. vm_compute. reflexivity. Qed.
 
+(* every *_to_string wrapper (translated from its source: the *_to_str helper it consults and the
+   prefix of its format! fallback), for ANY argument value: the text is the identifier of an
+   exported constant with that value, or prefix(0x<hex>) whose digits read back to the value *)
+Theorem C19_to_string : forall name ty inner prefix, In (name, (ty, (inner, prefix))) to_string_fns ->
+  forall v, (0 <= v < 2 ^ 64)%Z ->
+  exists text, to_string_sem abi_consts to_str_fns (ty, (inner, prefix)) v = Some text /\
+    (const_val abi_consts text = Some v \/
+     (text = prefix ++ "(" ++ hex0xl (Z.to_N v) ++ ")" /\ value_of 16 (hexl (Z.to_N v)) 0 = Z.to_N v)).
+Proof. apply to_string_ok_spec; vm_compute; reflexivity. Qed.
+
 (* non-vacuity: the reference table is not empty and the crate exports names from it *)
 Example C19_example :
   const_val abi_consts "SHT_NOBITS" = Some 8%Z /\ In ("SHT_NOBITS", 8%Z) ref_consts /\
   (exists ty arms, lookup "sh_type_to_str" to_str_fns = Some (ty, arms) /\
-                   to_str_sem abi_consts arms 8%Z = Some "SHT_NOBITS").
+                   to_str_sem abi_consts arms 8%Z = Some "SHT_NOBITS") /\
+  to_string_sem abi_consts to_str_fns ("u32", ("sh_type_to_str", "sh_type")) 8%Z = Some "SHT_NOBITS" /\
+  to_string_sem abi_consts to_str_fns ("u32", ("sh_type_to_str", "sh_type")) 305419896%Z = Some "sh_type(0x12345678)".
 Proof.
-  split; [vm_compute; reflexivity|]. split.
+  split; [vm_compute; reflexivity|]. split; [|split; [|split; vm_compute; reflexivity]].
   - assert (H : existsb (fun e => String.eqb (fst e) "SHT_NOBITS" && Z.eqb (snd e) 8) ref_consts = true)
       by (vm_compute; reflexivity).
     apply existsb_exists in H. destruct H as [[n v] [Hin H]]. apply andb_prop in H. destruct H as [H1 H2].
